@@ -528,9 +528,22 @@ def check(pid, tier):
             for root_, _, files_ in os.walk(rundir):
                 if "hang.txt" in files_:
                     hang = open(os.path.join(root_, "hang.txt")).read()
+            crashed_on = None
+            for root_, _, files_ in os.walk(rundir):
+                if "current.txt" in files_:
+                    try:
+                        txt = open(os.path.join(root_, "current.txt"), encoding="utf-8", errors="replace").read().strip()
+                    except OSError:
+                        txt = ""
+                    if txt:
+                        crashed_on = txt
             if hang:
                 p = write_replay(rundir, pid, 0, {"property": pid, "kind": "oracle-failure", "case": hang,
                                                   "what": "the implementation did not terminate on this case within the watchdog limit (hang)"})
+            elif crashed_on and r.returncode < 0:
+                p = write_replay(rundir, pid, 0, {"property": pid, "kind": "oracle-failure", "case": crashed_on,
+                                                  "what": f"the process running the implementation was killed by signal {-r.returncode} while executing this case (stack overflow or abort inside the library)",
+                                                  "output": (r.stdout or "")[-1500:]})
             else:
                 p = write_replay(rundir, pid, 0, {"property": pid, "kind": "harness-crash", "returncode": r.returncode,
                                                   "output": (r.stdout or "")[-3000:]})
